@@ -206,7 +206,7 @@ func (w *Worker) Violate(sig, detail string) (known bool) {
 	if w.viol == nil {
 		w.viol = &Violation{Property: w.Property, Signature: sig, Detail: detail, Step: len(w.steps)}
 		w.Note("VIOLATION %s: %s", sig, detail)
-		if (strings.HasPrefix(sig, "race|") || strings.HasPrefix(sig, "nondeterministic-output")) && w.anyRace == nil {
+		if (strings.HasPrefix(sig, "race|") || strings.HasPrefix(sig, "nondeterministic-output") || strings.HasPrefix(sig, "unmarshal-outcome-depends-on-process-history")) && w.anyRace == nil {
 			v := *w.viol
 			v.Steps = append([]string(nil), w.steps...)
 			v.Config = w.config
